@@ -45,9 +45,17 @@ def g_hdir(group):
     return group.get("harness_dir_abs") or os.path.join(VERIF, group["harness_dir"])
 
 
+def g_extra(group):
+    """helper files overlaid into other packages: [{"dir": "harness/x", "pkg": "."}]"""
+    ex = group.get("extra_overlays") or []
+    if not ex:
+        return []
+    return ["-extra-overlay", ",".join("%s=%s" % (os.path.join(VERIF, e["dir"]), e["pkg"]) for e in ex)]
+
+
 def list_harnesses(group):
     r = subprocess.run([GOSYM, "-repo", g_repo(group), "-pkg", group["pkg"], "-harness-dir", g_hdir(group),
-                        "-run", group["run"], "-list"], env=ENV, capture_output=True, text=True)
+                        "-run", group["run"], "-list"] + g_extra(group), env=ENV, capture_output=True, text=True)
     if r.returncode != 0:
         return None, r.stdout + r.stderr
     return [l for l in r.stdout.split() if l.startswith("VH_")], ""
@@ -57,7 +65,7 @@ def run_shard(args):
     group, names, tier, cfgpath, out, tmo = args
     cmd = [GOSYM, "-repo", g_repo(group), "-pkg", group["pkg"], "-harness-dir", g_hdir(group),
            "-run", "|".join(names), "-tier", tier, "-cfg", cfgpath, "-kf", os.path.join(VERIF, "known_findings.json"),
-           "-out", out, "-solver-timeout-ms", str(tmo)]
+           "-out", out, "-solver-timeout-ms", str(tmo)] + g_extra(group)
     t0 = time.time()
     r = subprocess.run(cmd, env=ENV, capture_output=True, text=True)
     return out, r.returncode, r.stderr, time.time() - t0
@@ -74,6 +82,11 @@ def replay(group, cexs, workdir):
         if f == "zz_verif_rt.go":
             continue
         repl[os.path.join(pkgdir, f if not f.endswith("_native.go") else f.replace("_native.go", "_nat.go"))] = os.path.join(hdir, f)
+    for e in group.get("extra_overlays") or []:
+        d = os.path.join(VERIF, e["dir"])
+        for f in sorted(os.listdir(d)):
+            if f.endswith(".go"):
+                repl[os.path.normpath(os.path.join(g_repo(group), e["pkg"], f))] = os.path.join(d, f)
     # registry of harnesses needed
     pkgname = None
     for f in os.listdir(hdir):
